@@ -800,6 +800,9 @@ impl<S: BitmapSlice + Send + Sync> PassthroughFs<S> {
                 // we don't want misbehaving clients to cause integer overflow.
                 let new = curr.saturating_sub(count);
 
+                #[cfg(fuse_backend_rs_verif)]
+                crate::verif_hooks::yield_point(crate::verif_hooks::YP_FORGET_BEFORE_CAS);
+
                 // Synchronizes with the acquire load in `do_lookup`.
                 if data
                     .refcount
